@@ -39,3 +39,4 @@ def run(ctx, R):
 
 
 META['level'] += ' FRESH-READ: the metadata (and data) an emission is built from is read after the last store into its container on the path.'
+META['level'] += ' SHARED-METADATA: the metadata list handed to update() - one object shared by all siblings and the emitter - is never edited in place, directly or through a field / slot it was stored in as it is. FAILED-VALUE-EMITTED: after a handler absorbed the exception of the statement that binds a value, no emission of that iteration uses it. FANOUT: the delivery loop of _emit passes and releases the metadata this call received (no field re-read: re-entrant emissions replace current_metadata).'
